@@ -460,6 +460,7 @@ func (ex *Exec) emitEdge(from, to *ssa.BasicBlock, pc string, st *State, back ma
 	g := ex.g
 	key := [2]int{from.Index, to.Index}
 	if back[key] {
+		ex.backPCs = append(ex.backPCs, pc) // path conditions of back edges (used by `propagates` for calls inside loops)
 		// invariant preserved
 		li := loops[to]
 		ls := loopSpecFor(ex.c, li.ord)
@@ -778,8 +779,23 @@ func (ex *Exec) postconditions() {
 		}
 	}
 	// propagates: error of call k non-nil (and call not re-executed) ==> function's error result non-nil
+	ex.stopsLoop = map[string]bool{}
+	for _, pr := range con.StopsLoop {
+		ex.stopsLoop[pr] = true
+	}
 	for _, pr := range con.Propag {
 		ex.propagates(pr)
+	}
+	for _, pr := range con.StopsLoop {
+		found := false
+		for _, p2 := range con.Propag {
+			if p2 == pr {
+				found = true
+			}
+		}
+		if !found {
+			ex.propagates(pr)
+		}
 	}
 	// before/after clauses that name a specific call site (#n) which the body does not contain
 	for _, ca := range con.Asserts {
@@ -847,6 +863,14 @@ func (ex *Exec) propagates(ref string) {
 		var parts []string
 		for _, r := range ex.rets {
 			parts = append(parts, fmt.Sprintf("(=> (and %s %s (not (= (i.tag %s) 0))) (not (= (i.tag %s) 0)))", r.pc, rec.pc, errTerm, r.results[ei]))
+		}
+		// `stops-loop X#n` (opt-in; retry loops legitimately go round again after a CAS failure): after a failed call the
+		// iteration must not go round again (it has to leave through a return, which the clauses above cover); otherwise
+		// a later iteration or the code after the loop could drop the error
+		if ex.stopsLoop[ref] {
+			for _, bpc := range ex.backPCs {
+				parts = append(parts, fmt.Sprintf("(not (and %s %s (not (= (i.tag %s) 0))))", bpc, rec.pc, errTerm))
+			}
 		}
 		goal := "(and " + strings.Join(parts, " ") + ")"
 		if len(parts) == 1 {
